@@ -53,6 +53,7 @@ SocketServer::~SocketServer()
 {
 	if(_thread) {
 		_thread->kill();
+		_thread->join(); // the thread object must outlive the thread
 		delete _thread;
 	}
 }
